@@ -550,11 +550,11 @@ Proof.
   destruct (selected r m hsel y) as [i|].
   - specialize (IH (n + 1)). destruct (collect_loop r m hsel max false t (n + 1)) as [k c]. cbn [fst] in *.
     intros x [<-|Hx].
-    + exists (mark_read x). split; [now left|repeat split].
+    + exists (mark_read y). split; [now left|repeat split].
     + destruct (IH x Hx) as (x' & Hx' & E). exists x'. split; [now right|exact E].
   - specialize (IH n). destruct (collect_loop r m hsel max false t n) as [k c]. cbn [fst] in *.
     intros x [<-|Hx].
-    + exists x. split; [now left|apply same_core_refl].
+    + exists y. split; [now left|apply same_core_refl].
     + destruct (IH x Hx) as (x' & Hx' & E). exists x'. split; [now right|exact E].
 Qed.
 
@@ -586,7 +586,7 @@ Proof.
   all: intros x Hx; exists x; (split; [|apply same_core_refl]).
   all: try (apply in_or_app; left; exact Hx).
   all: match goal with
-       | |- In x (insert_before ?p ?smp ?l) =>
+       | |- In _ (insert_before ?p ?smp ?l) =>
            clear - Hx; induction l as [|y l' IHl]; cbn [insert_before];
            [destruct Hx | destruct (p y); [right; exact Hx | destruct Hx as [<-|Hx]; [now left|right; auto]]]
        end.
@@ -614,7 +614,7 @@ Lemma run_from_keeps ops : forall r,
 Proof.
   induction ops as [|o ops IH]; intros r Hd Ht; [apply kept_in_refl|].
   cbn [forallb] in Ht. apply andb_true_iff in Ht. destruct Ht as [Ho Ht]. apply negb_true_iff in Ho.
-  rewrite run_from_cons. eapply kept_in_trans; [apply step_keeps; assumption|].
+  rewrite run_from_cons. apply (kept_in_trans _ (r_samples (fst (step r o)))); [apply step_keeps; assumption|].
   apply IH; [now rewrite step_qos|exact Ht].
 Qed.
 
